@@ -1,9 +1,9 @@
 package props
 
 import (
-	dbm "github.com/cometbft/cometbft-db"
 	"bytes"
 	"fmt"
+	dbm "github.com/cometbft/cometbft-db"
 	"sort"
 	"strings"
 	"sync"
@@ -11,8 +11,8 @@ import (
 	"time"
 
 	abci "github.com/cometbft/cometbft/abci/types"
-	"github.com/cosmos/cosmos-sdk/types/query"
 	sdk "github.com/cosmos/cosmos-sdk/types"
+	"github.com/cosmos/cosmos-sdk/types/query"
 
 	"verifharness/fw"
 	"verifharness/lab"
@@ -42,8 +42,8 @@ func init() {
 			}
 			return 6
 		},
-		Run:  runC20,
-		Need: []string{"page_walks", "items_compared"},
+		Run:         runC20,
+		Need:        []string{"page_walks", "items_compared"},
 		Assumptions: []string{"the legacy (non-gRPC) querier and REST gateways are not exercised", "filters are exact-match as implemented by the statement's 'matches the filter' (purchaser/status filters are case-insensitive in the query server)"},
 	})
 }
@@ -515,7 +515,9 @@ func runC20Race(c *fw.Ctx) {
 	w.Ent, w.Reg, w.Stream, w.Bank, w.Staking = 40, 30, 25, 5, 0
 	w.GovPct, w.VetoPct = 2, 0
 	var twinHashes [][]byte
-	hm := &Monitor{Name: "hash", AfterBlock: func(e *Env, o *lab.Obs) { twinHashes = append(twinHashes, append([]byte(nil), e.L.App.LastCommitID().Hash...)) }}
+	hm := &Monitor{Name: "hash", AfterBlock: func(e *Env, o *lab.Obs) {
+		twinHashes = append(twinHashes, append([]byte(nil), e.L.App.LastCommitID().Hash...))
+	}}
 	twin.Monitors = append(twin.Monitors, hm)
 	RunMixed(twin, g, w, r.Range(30, 45))
 	if twin.Halted != "" {
